@@ -25,6 +25,7 @@ AVOIDABLE = [
     "panic-nil",             # panic(nil)
     "loop-branch-then-defer",  # defer on a branch inside a loop + a non-loop defer statement after that loop
     "first-defer-panics",    # the first-registered deferred call of a frame panics (frame stays linked)
+    "boxed-panic-value",     # panic values that live in collector-managed memory (struct / computed string)
 ]
 
 PRELUDE = r'''package main
@@ -80,6 +81,17 @@ func idc(site, a, b int) {
 		println("MONITOR: iterator's deferred call", site, a, b, "out of order / not pending")
 	}
 	println("id", site, a, b)
+}
+
+// keep makes a panic value reachable from a global for as long as it can be pending (used while finding
+// C04-panic-value-not-gc-visible is open: llgo keeps pending panic values where the collector cannot see them)
+var kept [8]any
+var nkept int
+
+func keep(v any) any {
+	kept[nkept%8] = v
+	nkept++
+	return v
 }
 
 func tr(s string, a, b int) { println(s, a, b) }
@@ -665,6 +677,8 @@ class FuncGen:
     def s_panic(self, ctx, ind, p):
         self.sk.append("P")
         v = self.r.choice(self.PANICVALS if self.av("panic-nil") else self.PANICVALS + ["nil"])
+        if self.av("boxed-panic-value") and v != "nil":
+            v = "keep(%s)" % v
         return [p + "if %s {" % self.cond(), p + "\ttr(\"panic\", x, res)", p + "\tpanic(%s)" % v, p + "}"], True, False
 
     def s_fault(self, ctx, ind, p):
@@ -712,7 +726,9 @@ class FuncGen:
         c.toplevel = False
         body, pp = self.block(c, ind + 1, 1, 4, top=True)
         self.sk.append("]")
-        return [p + "func() {"] + self.safe_first(lit, ind + 1) + body + [p + "}()"], pp, False
+        # always a possible panic point for the enclosing function: the closure's own deferred calls run when it returns,
+        # i.e. in the middle of the enclosing body, and may panic
+        return [p + "func() {"] + self.safe_first(lit, ind + 1) + body + [p + "}()"], True, False
 
     def s_gostmt(self, ctx, ind, p):
         self.sk.append("Go[")
@@ -1194,6 +1210,50 @@ func p29(x int) (res int) {
 	g29()
 	return 1
 }
+
+// 30: the panic value must stay reachable for the collector while deferred calls run (boxed value, collection and
+// same-size allocations during unwinding, recover in the caller)
+var p30sink [64]any
+
+func p30churn(n int) {
+	for i := 0; i < n; i++ {
+		p30sink[i%64] = myErr{-1 - i}
+	}
+}
+func p30clobber(n int) int {
+	var a [32]int
+	for i := range a {
+		a[i] = n * i
+	}
+	if n > 0 {
+		return p30clobber(n-1) + a[n%32]
+	}
+	return a[3]
+}
+func p30thrower(i int) { panic(myErr{i}) }
+func p30catcher(i int) (bad int) {
+	defer func() {
+		e := recover()
+		if v, ok := e.(myErr); !ok || v.n != i {
+			bad = 1
+		}
+	}()
+	defer func() {
+		p30clobber(30)
+		runtime.GC()
+		p30churn(3000)
+	}()
+	p30thrower(i)
+	return 0
+}
+func p30(x int) (res int) {
+	bad := 0
+	for i := 1; i <= 20; i++ {
+		bad += p30catcher(x*100 + i)
+	}
+	println("p30.corrupted", bad)
+	return bad
+}
 '''
 
 PROBE_UNITS = [
@@ -1208,7 +1268,7 @@ PROBE_UNITS = [
     (21, "call", "p21", 1), (22, "call", "p22", 1), (23, "call", "p23", 1), (24, "call", "p24", 1),
     (250, "call", "p25", 1), (251, "call", "p25", 2),
     (80, "call", "p8", 0), (81, "call", "p8", 1),
-    (27, "call", "p27", 1), (28, "call", "p28", 7),
+    (27, "call", "p27", 1), (28, "call", "p28", 7), (30, "call", "p30", 1),
     # the next ones may end in a nil dereference under llgo (one recovered SIGSEGV per thread at most, C03's finding):
     (26, "callgo", "p26", 1), (16, "call", "p16", 1),
     (29, "call", "p29", 1),   # may crash the llgo binary (unwinds through a dead frame)
